@@ -2,4 +2,3 @@ package main
 
 func transTable(path string) any  { fail("table: not implemented"); return nil }
 func transVars(paths []string) any { fail("vars: not implemented"); return nil }
-func transMisc(paths []string) any { fail("misc: not implemented"); return nil }
